@@ -6,7 +6,8 @@
    specification's plain set of loaded key objects (Spec/Keyring_spec.v). *)
 From Coq Require Import ZArith List Bool Permutation.
 Import ListNotations.
-Require Import PV.Lib.Bytes PV.Model.Keyring PV.Spec.Keyring_spec PV.Proofs.Keyring_lemmas PV.Proofs.Keyring_lemmas2.
+Require Import PV.Lib.Bytes PV.Model.Keyring PV.Spec.Keyring_spec PV.Proofs.Keyring_lemmas PV.Proofs.Keyring_lemmas2
+  PV.Proofs.Keyring_lemmas3.
 Open Scope Z_scope.
 
 (* re-sorting one alias neither loses nor invents an (identifier, key) pair, and keeps every layer a dict *)
@@ -102,6 +103,24 @@ Print Assumptions C19_fingerprints_filtered.
 Theorem C19_len_exact : forall sort ops, klen (run sort ops) = length (loaded_after ops).
 Proof. exact len_exact. Qed.
 Print Assumptions C19_len_exact.
+
+(* histories that load / unload whole keys of a universe of distinct key objects (every component has its own id, top-level keys are
+   primary keys): what is loaded is exactly the primary + subkeys of the keys that are currently in (live_after = plain add / remove) *)
+Theorem C19_whole_key_histories : forall U ops, universe_ok U -> (forall o, In o ops -> In (key_of o) U) ->
+  forall x, In x (loaded_after ops) <-> exists k, In k (live_after ops) /\ In x (comps k).
+Proof. exact whole_key_histories. Qed.
+Print Assumptions C19_whole_key_histories.
+Example C19_universe_premise : universe_ok [keyA; keyB] /\ forall o, In o f5_history -> In (key_of o) [keyA; keyB].
+Proof.
+  split; [split|].
+  - cbn. repeat constructor; cbn; intuition discriminate.
+  - intros k [<-|[<-|[]]]; reflexivity.
+  - intros o [<-|[<-|[<-|[<-|[]]]]]; cbn; auto.
+Qed.
+
+Theorem C19_loaded_ids_distinct : forall sort : list pkid -> list pkid, (forall l, Permutation l (sort l)) -> forall ops, NoDup (map kid (loaded_after ops)).
+Proof. exact loaded_ids_distinct. Qed.
+Print Assumptions C19_loaded_ids_distinct.
 
 (* self._aliases[-1] never fails: the deque is never empty *)
 Theorem C19_layers_never_empty : forall sort, (forall l, Permutation l (sort l)) -> forall ops, lays (run sort ops) <> [].
